@@ -36,6 +36,9 @@ GEN_SPEC = {"imports": ["From God Require Import C11.GenEnv."], "items": [
     {"kind": "calls", "file": "lib/store/sqlx/stmt.go", "func": "nilGuard.start", "as": "nilguard_start_skeleton"},
     {"kind": "calls", "file": "lib/store/sqlx/stmt.go", "func": "newGuard", "as": "newguard_skeleton"},
     {"kind": "calls", "file": "lib/store/sqlx/tx.go", "func": "txSession.ExecCtx", "as": "tx_execctx_skeleton"},
+    {"kind": "calls", "file": "lib/store/sqlx/orm.go", "func": "getTaggedFieldValueMap", "as": "taggedmap_skeleton"},
+    {"kind": "calls", "file": "lib/store/sqlx/orm.go", "func": "unwrapFields", "as": "unwrapfields_skeleton"},
+    {"kind": "calls", "file": "lib/store/sqlx/orm.go", "func": "mapStructFieldsIntoSlice", "as": "mapstruct_skeleton"},
     {"kind": "calls", "file": "lib/store/sqlx/tx.go", "func": "begin", "as": "begin_skeleton"},
     {"kind": "chain", "file": "lib/store/sqlx/tx.go", "func": "begin", "call": "db.Begin", "as": "begin_args"},
     {"kind": "chain", "file": "lib/store/sqlx/conn.go", "func": "commonConn.TransactCtx", "call": "transact", "as": "transact_args"},
@@ -77,6 +80,9 @@ RULE = ("tx: all 8 begin/commit/rollback fail-or-not combinations x all bodies o
         "families of the same (shape, rows); every orm case is run (together with a fixed arity/order boundary stream of 60 cases x 4 "
         "entry points x plain/Ctx, incl. three mixed shapes) through all 4 entry point families (conn, stmt on conn, tx session, stmt on "
         "tx session), plain or Ctx form at random; "
+        "plus 36 PAIRED cases (thorough: 400): two queries one after the other in the same driver process into two different fully tagged "
+        "struct types that are both function-local types called T (reflect.Type.String() coincides; tags at other field positions, "
+        "other field counts, swapped tags; 6 pairs x both orders x row/rows x conn/stmt/tx/txstmt at random); "
         "non-trivial = tx case in which a Begin succeeded, or orm case with at least one row reaching a struct/primitive destination; "
         "distinct = distinct canonical case JSON")
 TRUSTED = ["database/sql Rows.Scan / convertAssign for int64, string, sql.NullInt64 and struct destinations "
@@ -431,6 +437,66 @@ def gen_family(rng, maxperms):
     return [permute_case(c, p) for p in perms[:maxperms]]
 
 
+# declared destination types of the driver (verifDecl): function-local types that are ALL called T
+def _lf(tag, k, ptr=False):
+    return {"tag": tag, "ptr": ptr, "k": k}
+
+
+DECLS = {
+    "1a": [_lf("a", "int"), _lf("b", "str")], "1b": [_lf("b", "str"), _lf("a", "int")],
+    "2a": [_lf("a", "int"), _lf("b", "int"), _lf("c", "int")], "2b": [_lf("c", "int"), _lf("a", "int")],
+    "3a": [_lf("x", "str"), _lf("y", "int")], "3b": [_lf("y", "int"), _lf("z", "int"), _lf("x", "str")],
+    "4a": [_lf("a", "int"), _lf("b", "int")], "4b": [_lf("b", "int"), _lf("a", "int")],
+    "5a": [_lf("p", "int", True), _lf("q", "str")], "5b": [_lf("q", "str"), _lf("p", "int", True), _lf("r", "nint")],
+    "6a": [_lf("a", "int"), _lf("b", "int"), _lf("c", "int"), _lf("d", "int")],
+    "6b": [_lf("d", "int"), _lf("c", "int"), _lf("b", "int"), _lf("a", "int")],
+}
+
+
+def gen_decl_query(rng, decl, cols=None):
+    """one query into declared type `decl`: its tag names as columns (given order, or permuted, sometimes one
+    extra column or one column short), non-zero distinct cells typed for the tagged field"""
+    fs = json_copy(DECLS[decl])
+    kinds = {f["tag"]: f["k"] for f in fs}
+    if cols is None:
+        cols = [f["tag"] for f in fs]
+        rng.shuffle(cols)
+        r = rng.random()
+        if r < 0.25:
+            cols.insert(rng.randint(0, len(cols)), "w")          # an extra, unknown column
+        elif r < 0.5 and len(cols) > 1:
+            cols.pop(rng.randrange(len(cols)))                   # one column short (strict forms must reject)
+    mode = rng.choice(["row", "rows"])
+    nrows = 1 if mode == "row" else rng.choice([1, 2, 3])
+    rows = []
+    for r in range(nrows):
+        row = []
+        for j, c in enumerate(cols):
+            k = kinds.get(c, "int")
+            v = 10 * (r + 1) + j + 1
+            row.append(("s%d" % v) if k == "str" else v)
+        rows.append(row)
+    shape = {"d": "slice", "ptr": rng.random() < 0.5, "e": {"fs": fs}} if mode == "rows" else {"d": "elem", "ptr": False, "e": {"fs": fs}}
+    return {"t": "orm", "decl": decl, "mode": mode, "strict": rng.random() < 0.6, "shape": shape, "cols": cols, "rows": rows,
+            "via": rng.choice(VIAS), "ctx": rng.random() < 0.5}
+
+
+def gen_pair(rng, k=None, order=None):
+    """first a query into one of two same-named types, then into the other one"""
+    k = k or rng.choice("123456")
+    order = order or rng.choice(["ab", "ba"])
+    first = gen_decl_query(rng, k + order[0])
+    # the second query often reuses the first one's column list where the tag sets allow it
+    second = gen_decl_query(rng, k + order[1])
+    return {"t": "pair", "first": first, "second": second}
+
+
+def pairs_all(rng):
+    out = [gen_pair(rng, k, o) for k in "123456" for o in ("ab", "ba") for _ in range(3)]
+    rng.shuffle(out)                                             # which T the process meets first varies with the seed
+    return out
+
+
 def generate(rng, tier, n):
     cases = []
     if tier != "search":
@@ -446,6 +512,7 @@ def generate(rng, tier, n):
     while len([c for c in cases if c["t"] == "orm"]) < n:
         cases.append(gen_orm(rng))
     out = via_all(rng, cases)
+    out += pairs_all(rng) if tier != "thorough" else [gen_pair(rng) for _ in range(400)]
     if tier != "search":
         for c in boundary_orm():                       # boundary stream: every entry point, plain AND Ctx form
             for via in VIAS:
@@ -515,7 +582,7 @@ def search(rng, problems):
     out += tx_sweep(rng)
     out += tx_ctx_sweep(rng)
     out += boundary_orm()
-    return via_all(rng, out)
+    return via_all(rng, out) + pairs_all(rng)
 
 
 # ------------------------------------------------------------------------------------------ drive
@@ -524,7 +591,8 @@ def drive(cases, tier):
     lib/store/sqlx (TestVerifDriver); observations are merged back in case order"""
     import vlib
     idx_c = [i for i, c in enumerate(cases) if c["t"] == "tx" and c.get("api", "").startswith("cached")]
-    idx_x = [i for i in range(len(cases)) if i not in set(idx_c)]
+    in_c = set(idx_c)
+    idx_x = [i for i in range(len(cases)) if i not in in_c]
     obs = [None] * len(cases)
     logs = []
     for name, pkg, run, idx in (("C11x" + tier[0], "./lib/store/sqlx", "^TestVerifDriver$", idx_x),
@@ -731,11 +799,16 @@ def encode_orm(c, o):
 
 
 def encode(case, obs):
+    if case["t"] == "pair":
+        return "CPair (%s) (%s)" % (encode_orm(case["first"], obs.get("first") or {"error": "missing"}),
+                                    encode_orm(case["second"], obs.get("second") or {"error": "missing"}))
     return encode_tx(case, obs) if case["t"] == "tx" else encode_orm(case, obs)
 
 
 # ------------------------------------------------------------------------------------------ evidence
 def nontrivial(case, obs):
+    if case["t"] == "pair":
+        return True
     if case["t"] == "tx":
         return any(c.startswith("begin:ok") for c in obs.get("calls", []))
     e = case["shape"]["e"]
@@ -744,6 +817,9 @@ def nontrivial(case, obs):
 
 
 def bucket(case, obs):
+    if case["t"] == "pair":
+        return ["pair", "pair:%s->%s" % (case["first"]["decl"], case["second"]["decl"]),
+                "pair:via=%s->%s" % (case["first"]["via"], case["second"]["via"])]
     if case["t"] == "tx":
         out = ["tx", "tx:stmts=%d" % min(len(case["stmts"]), 3), "tx:final=" + case["final"]["k"],
                "tx:begin=" + case["begin"]["k"], "tx:commit=" + case["commit"], "tx:rollback=" + case["rollback"],
@@ -787,6 +863,10 @@ def bucket(case, obs):
 
 
 def explain(case, obs):
+    if case["t"] == "pair":
+        return ("two queries in one process into two different struct types of the same name (%s then %s): one of them was "
+                "not filled by the db tags of ITS OWN type (C11.Exec.spec_orm on each query separately)"
+                % (case["first"]["decl"], case["second"]["decl"]))
     if case["t"] == "tx":
         return ("observed Transact behaviour contradicts C11.Spec.tx_allowed: with these driver faults and this body the "
                 "returned error / the Begin-Exec-Commit-Rollback log is not the one the outcome table allows "
